@@ -612,3 +612,55 @@ Proof.
   rewrite Forall_forall. intros r' Hr'. apply in_map_iff in Hr'. destruct Hr' as (r & <- & Hr).
   rewrite Forall_forall in Hrows. destruct (row_shape fs r (Hrows r Hr)) as (vals & ->). reflexivity.
 Qed.
+
+(* ---------- the RDD input path (SparkSession._inferSchema): first row, then merged with the following rows
+   until no NullType is left *)
+Lemma rdd_merge_below fs : inferable (TStruct fs) -> forall rows acc,
+  below acc (TStruct fs) -> Forall (is_row_of (TStruct fs)) rows ->
+  rdd_merge acc rows = Ok (TStruct fs) \/ rdd_merge acc rows = Err EValue.
+Proof.
+  intros Hinf. induction rows as [|r rows IH]; intros acc Hacc Hrows; [now right|].
+  inversion Hrows as [|? ? Hr Hrows']; subst. simpl.
+  destruct (infer_schema_row fs r Hinf Hr) as (s & Es & Hs). rewrite Es. simpl.
+  destruct (merge_below (TStruct fs) Hinf acc s Hacc Hs) as (c & Ec & Hc). rewrite Ec. simpl.
+  destruct (has_nulltype c) eqn:En; [now apply IH|]. left. f_equal. now apply below_no_null.
+Qed.
+
+Lemma Forall_firstn {A} (P : A -> Prop) n l : Forall P l -> Forall P (firstn n l).
+Proof. intro H. revert n. induction H as [|x l Hx _ IH]; intros [|n]; simpl; constructor; auto. Qed.
+
+Theorem infer_rdd_result fs rows : inferable (TStruct fs) -> Forall (is_row_of (TStruct fs)) rows ->
+  infer_schema_rdd rows = Ok (TStruct fs) \/ infer_schema_rdd rows = Err EValue \/
+  infer_schema_rdd rows = Err EStopIteration.
+Proof.
+  intros Hinf Hrows. destruct rows as [|r rows]; [now right; right|].
+  inversion Hrows as [|? ? Hr Hrows']; subst.
+  destruct (row_shape fs r Hr) as (vals & ->). unfold infer_schema_rdd.
+  destruct (py_falsy (PRow (map sf_name fs) vals)); [now right; left|].
+  destruct (infer_schema_row fs _ Hinf Hr) as (s0 & E0 & H0). rewrite E0. cbn [bind].
+  destruct (has_nulltype s0) eqn:En.
+  - destruct (rdd_merge_below fs Hinf (firstn 99 rows) s0 H0 (Forall_firstn _ _ _ Hrows')) as [E|E]; rewrite E; auto.
+  - left. f_equal. now apply below_no_null.
+Qed.
+
+Theorem create_rdd_id local fs rows s :
+  inferable (TStruct fs) -> Forall (is_row_of (TStruct fs)) rows ->
+  infer_schema_rdd rows = Ok s ->
+  s = TStruct fs /\ Forall (fun r => verify s true r = Ok tt) rows /\
+  create_inferred_rdd local rows = Ok (map (tz_local local) rows).
+Proof.
+  intros Hinf Hrows Hs.
+  destruct (infer_rdd_result fs rows Hinf Hrows) as [E|[E|E]]; rewrite E in Hs; try discriminate.
+  injection Hs as <-. split; [reflexivity|]. split.
+  { eapply Forall_impl; [|exact Hrows]. intros r [_ Hr]. apply verify_ivalue; auto. }
+  unfold create_inferred_rdd. rewrite E. cbn [bind].
+  assert (E2 : mapM (fun r => bind (convert (TStruct fs) r) (to_internal local (TStruct fs))) rows
+               = Ok (map (tz_local local) rows)).
+  { apply mapM_id. rewrite Forall_forall in *. intros r Hr. destruct (Hrows r Hr) as [_ Hv].
+    rewrite (convert_ivalue _ r Hv). cbn [bind]. now apply to_internal_ivalue. }
+  rewrite E2. cbn [bind].
+  rewrite (mapM_id _ (fun r => r)); [now rewrite map_id|].
+  rewrite Forall_forall. intros r' Hr'. apply in_map_iff in Hr'. destruct Hr' as (r & <- & Hr).
+  rewrite Forall_forall in Hrows. destruct (row_shape fs r (Hrows r Hr)) as (vals & ->). reflexivity.
+Qed.
+
